@@ -180,9 +180,10 @@ def check(ctx, model, seed_style, workload="gen", memo=True, poison=None, via=No
     if (ctx.rng.random() < 0.15) if poison is None else poison:
         # history: a read that fails half-way (cartesian option on, unknown resonance further down) comes first in this interpreter
         ctx.hit("read-after-a-failed-cartesian-read")
-        wit["preceded_by_failed_read_of"] = A.POISON_TEXT
+        bad_text = A.POISON_TEXTS[_nread[0] % 2]      # refused after parsing (unknown resonance) / by the options grammar itself (missing brace)
+        wit["preceded_by_failed_read_of"] = bad_text
         try:
-            read(A.POISON_TEXT)
+            read(bad_text, VIAS[(_nread[0] // 2) % len(VIAS)])
         except Exception:  # noqa: BLE001, S110   what it raises is not judged
             pass
     if poison is None and ctx.rng.random() < 0.1:
